@@ -533,10 +533,11 @@ def grid(opname, tier, rng):
     elif opname == "slice":
         curated = {
             (4,): [1, -1, slice(1, 3), slice(None, None, 2), slice(None, None, -1), slice(3, 0, -2), Ellipsis, None, [0, 0, 1], [3, -1, 3, 3],
-                   np.array([True, False, True, True]), (None, slice(1, None)), (slice(None), None), [2]],
+                   np.array([True, False, True, True]), (None, slice(1, None)), (slice(None), None), [2], [0, -4], [1, -3, 3, -1]],
             (3, 4): [0, -1, (1, 2), (slice(None), 1), (slice(0, 2), slice(1, 4, 2)), (Ellipsis, 0), (0, Ellipsis), (None, 1), ([0, 0, 2],),
                      ([0, 2], [1, 1]), (slice(None), [0, 0, 3]), np.array([[True, False, True, False]] * 3), np.array([True, False, True]),
-                     (slice(None, None, -1), slice(None, None, -2)), (1, None, slice(None)), (Ellipsis,), (slice(2, 0, -1),), ([1, 1, 1, 1],)],
+                     (slice(None, None, -1), slice(None, None, -2)), (1, None, slice(None)), (Ellipsis,), (slice(2, 0, -1),), ([1, 1, 1, 1],),
+                     (slice(None), [1, -3, 0]), ([0, 1, -3], [2, 3, -2]), ([2, -1],)],
             (2, 3, 2): [(0,), (1, 2), (1, 2, 0), (Ellipsis, 1), (slice(None), slice(None), 0), (0, Ellipsis, 1), ([0, 0], slice(None), [1, 0]),
                         (None, Ellipsis, None), (slice(None), [2, 0, 2]), (-1, -1, -1), (slice(None), 1, slice(None, None, -1))],
             (2, 2, 1, 3): [(1, 0), (Ellipsis, 0, 2), (slice(None), None, 1), ([1, 1, 0],), (0, slice(None), 0, [0, 0, 2])],
@@ -644,6 +645,8 @@ def grid(opname, tier, rng):
 
 def vclass_options(op, a):
     if op.name == "pow":
+        if float(a["n"]) == int(a["n"]) and a["n"] >= 1:
+            return ["normal", "withzeros"]        # the derivative n*x^(n-1) is finite at exact zeros for integer n >= 1
         return [_pow_vclass(a["n"])]
     return list(op.vclasses)
 
